@@ -142,11 +142,11 @@ def addMeta (m : MetaMap) (unit key value : Bytes) : MetaMap × Bool :=
 def get (m : MetaMap) (unit key : Bytes) : Option Meta :=
   m.find (tidy F64.one unit).2 key
 
-def sAssume : Bytes := Bytes.ofString "assume"
-def sBetter : Bytes := Bytes.ofString "better"
-def sExact : Bytes := Bytes.ofString "exact"
-def sHigher : Bytes := Bytes.ofString "higher"
-def sLower : Bytes := Bytes.ofString "lower"
+def sAssume : Bytes := [97, 115, 115, 117, 109, 101]     -- "assume"
+def sBetter : Bytes := [98, 101, 116, 116, 101, 114]     -- "better"
+def sExact : Bytes := [101, 120, 97, 99, 116]            -- "exact"
+def sHigher : Bytes := [104, 105, 103, 104, 101, 114]    -- "higher"
+def sLower : Bytes := [108, 111, 119, 101, 114]          -- "lower"
 
 /-- `GetAssumption`: true = AssumeExact, false = AssumeNothing -/
 def getAssumption (m : MetaMap) (unit : Bytes) : Bool :=
